@@ -39,3 +39,29 @@ package transport
 //@   modifies sock
 //@   ensures result == nil ==> sock == old(sock) ++ b
 //@   ensures result != nil ==> sock == old(sock)
+
+// ---- C14: what the library asks ssh / crypto/ssh to do ------------------------------------------------
+
+// the exact argv of the system transport, written from the property statement
+//@ spec secsArg(key string, a *Args) string := sprintf(key, ints(box("int", toint(durSeconds(a.TimeoutSocket)))))
+//@ spec sysArgv(t *System, a *Args) []string := strs(a.Host, "-p", sprintf("%d", ints(box("int", a.Port))), "-o", secsArg("ConnectTimeout=%d", a), "-o", secsArg("ServerAliveInterval=%d", a))
+//@        ++ (a.User != "" ? strs("-l", a.User) : strs())
+//@        ++ (t.SSHArgs.StrictKey ? (strs("-o", "StrictHostKeyChecking=yes") ++ (t.SSHArgs.KnownHostsFile != "" ? strs("-o", sprintf("UserKnownHostsFile=%s", ints(box("string", inj(t.SSHArgs.KnownHostsFile))))) : strs())) : strs("-o", "StrictHostKeyChecking=no", "-o", "UserKnownHostsFile=/dev/null"))
+//@        ++ strs("-F", t.SSHArgs.ConfigFile != "" ? t.SSHArgs.ConfigFile : "/dev/null")
+//@        ++ (t.SSHArgs.PrivateKeyPath != "" ? strs("-i", t.SSHArgs.PrivateKeyPath) : strs())
+//@        ++ t.ExtraArgs
+
+//@ func (*System).buildOpenArgs [C14]
+//@   modifies t.OpenArgs
+//@   ensures #exact-argv t.OpenArgs === sysArgv(t, a)
+
+//@ func NewSSHArgs [C14 C19]
+//@   modifies alloc(), optlog
+//@   ensures #fresh result.1 == nil ==> fresh(result.0)
+//@   ensures #nil-on-error result.1 != nil ==> result.0 == nil
+//@   ensures #error-is-not-ignored-sentinel result.1 != nil ==> !isErr(result.1, util.ErrIgnoredOption)
+//@   ensures #every-option-applied-in-order result.1 == nil ==> optlog == old(optlog) ++ applied(options, box("*transport.SSHArgs", result.0), len(options))
+//@   ensures #strict-by-default result.1 == nil && len(options) == 0 ==> result.0.StrictKey && result.0.KnownHostsFile == "" && result.0.ConfigFile == "" && result.0.PrivateKeyPath == ""
+//@   loop 1 invariant -1 <= rangeindex && rangeindex < len(options) && isnew(a) && a != nil
+//@   loop 1 invariant optlog == old(optlog) ++ applied(options, box("*transport.SSHArgs", a), rangeindex + 1)
+//@   loop 1 invariant rangeindex == -1 ==> a.StrictKey && a.KnownHostsFile == "" && a.ConfigFile == "" && a.PrivateKeyPath == ""
